@@ -175,7 +175,7 @@ I32_POOL = [0, 1, -1, 2, -2, 3, 7, 8, 15, 16, 31, 32, 33, 63, 64, 65, 127, 128, 
             100, -100, 1000000, 65535, 65536, 65532, 65528]
 I64_POOL = [0, 1, -1, 2, -2, 31, 32, 33, 63, 64, 65, 127, 128, 255, 0xFFFF, 0x7FFFFFFF, 0x80000000, 0xFFFFFFFF,
             0x100000000, -0x80000000, -0x80000001, 0x7FFFFFFFFFFFFFFF, -0x8000000000000000, -0x7FFFFFFFFFFFFFFF,
-            0x4000000000000000, 0x5555555555555555, 1 << 53, (1 << 53) + 1, -(1 << 53) - 1, 1000000007, -1000]
+            0x4000000000000000, 0x5555555555555555, 0x1000001000000001, 1 << 53, (1 << 53) + 1, -(1 << 53) - 1, 1000000007, -1000]
 _F64_VALUES = [0.0, -0.0, 1.0, -1.0, 0.5, -0.5, 1.5, -1.5, 2.5, -2.5, 3.5, 0.49999999999999994, -0.49999999999999994,
                2.0, 3.0, 10.0, 0.1, -0.1, 1e-310, 5e-324, -5e-324, 1.7976931348623157e308, -1.7976931348623157e308,
                2147483647.0, 2147483648.0, -2147483648.0, -2147483649.0, 2147483647.5, -2147483648.5,
@@ -243,6 +243,18 @@ def rand_value(rnd, t, odd_nans=()):
 
 def const_instr(t, v):
     return [t + ".const", v]
+
+
+def is_nonfinite(t, v):
+    if t == F32:
+        return (v >> 23) & 0xFF == 0xFF
+    if t == F64:
+        return (v >> 52) & 0x7FF == 0x7FF
+    return False
+
+
+F32_ARITH = {"f32.add", "f32.sub", "f32.mul", "f32.div", "f32.sqrt", "f32.demote_f64", "f32.convert_i32_s",
+             "f32.convert_i32_u", "f32.convert_i64_s", "f32.convert_i64_u"}
 
 
 def classify_value(t, v):
@@ -381,7 +393,7 @@ class ModGen:
                 init = ["global.get", r.choice(cands)]
                 self.feat("global.init.global_get")
             else:
-                init = const_instr(t, rand_value(r, t, odd_nan_pool(t, self.avoid) if d.nan_payload else ()))
+                init = const_instr(t, self.const_value(t))
             desc["globals"].append({"typ": t, "mut": mut, "init": init})
             self.globals.append((t, mut, False))
         # function signatures
@@ -448,7 +460,7 @@ class ModGen:
         if self.table is not None and r.random() < 0.4:
             desc["exports"].append({"name": "tab", "kind": "table", "index": 0})
         for gi, (t, mut, imported) in enumerate(self.globals):
-            if not imported and r.random() < 0.6:
+            if not imported and r.random() < 0.6 and not (t in FLOATS and "no-exported-float-global" in self.avoid):
                 desc["exports"].append({"name": "g%d" % gi, "kind": "global", "index": gi})
         if want_start:
             cands = [first_def + k for k, s in enumerate(sigs) if s == ([], [])]
@@ -463,6 +475,12 @@ class ModGen:
         self.feat("defs.table", int(desc["table"] is not None))
         self.feat("defs.memory", int(desc["memory"] is not None))
         return desc
+
+    def const_value(self, t):
+        v = rand_value(self.r, t, odd_nan_pool(t, self.avoid) if self.d.nan_payload else ())
+        if "no-nonfinite-float-const" in self.avoid and is_nonfinite(t, v):
+            v = f32_bits(1.5) if t == F32 else f64_bits(1.5)
+        return v
 
     def export_name(self, base):
         if self.d.odd_names and self.r.random() < 0.15:
@@ -536,7 +554,7 @@ class FuncGen:
 
     # -- expressions ----------------------------------------------------------
     def const(self, t):
-        v = rand_value(self.r, t, odd_nan_pool(t, self.avoid) if self.d.nan_payload else ())
+        v = self.mg.const_value(t)
         self.feat("const.%s.%s" % (t, classify_value(t, v)))
         self.spend()
         return [const_instr(t, v)]
@@ -603,10 +621,13 @@ class FuncGen:
 
     def numeric(self, t, depth):
         r = self.r
-        n = r.choice(OPS_BY_RESULT[t])
+        av = self.avoid
+        names = OPS_BY_RESULT[t]
+        if t == F32 and "no-f32-arith" in av:
+            names = [x for x in names if x not in F32_ARITH]
+        n = r.choice(names)
         args, _ = SIG[n]
         base = n.split(".")[1]
-        av = self.avoid
         # ---- avoid switches (generator flags; checks map open findings to flags) ----
         if base in ("div_s", "div_u", "rem_s", "rem_u"):
             it = args[0]
@@ -652,6 +673,10 @@ class FuncGen:
         if "trunc_sat" in n and "trunc-sat-no-nan" in av:
             src = args[0]
             self.feat("trunc_sat.from_int")
+            if src == F32 and "no-f32-arith" in av:
+                code = self.expr(I32, depth - 1) + [const_instr(I32, 0x7FFFFF)] + self.op("i32.and")
+                code += self.op("f32.convert_i32_s") + [const_instr(F32, f32_bits(-0.5))] + self.op("f32.mul")
+                return code + self.op(n)
             code = self.expr(I64, depth - 1) + self.op(src + ".convert_i64_s")
             c = r.choice([1.0, 0.5, 3.0, -1.5])
             return code + [const_instr(src, f32_bits(c) if src == F32 else f64_bits(c))] + self.op(src + ".mul") + self.op(n)
@@ -805,12 +830,15 @@ class FuncGen:
             # a trapping call: null entry, out of range index, or wrong signature
             kinds = []
             nulls = [i for i, f in enumerate(entries) if f is None]
-            if nulls:
+            if nulls and "no-call-indirect-null" not in self.avoid:
                 kinds.append("null")
-            kinds.append("oob")
+            if "no-call-indirect-oob" not in self.avoid:
+                kinds.append("oob")
             mism = [i for i, f in enumerate(entries) if f is not None and f < self.fidx]
-            if mism:
+            if mism and "no-call-indirect-sig-mismatch" not in self.avoid:
                 kinds.append("sig")
+            if not kinds:
+                return None
             kind = r.choice(kinds)
             cand = [j for j, (p, res) in enumerate(types) if (res[0] if res else None) == t]
             if not cand:
